@@ -217,3 +217,101 @@ package mqtt
 //@        evCount("select") == ite(evRet[bool]("(*signaller).UnsubAck", 0, 1), 1, 0) && evCount("send") == 0 &&
 //@        (evCount("select") == 1 ==> evArg[chan *pktUnsubAck]("select", 0, 0) == evRet[chan *pktUnsubAck]("(*signaller).UnsubAck", 0, 0) &&
 //@             (evRet[int]("select", 0, 0) == 0 ==> evArg[*pktUnsubAck]("select", 0, 1) == evRet[*pktUnsubAck]("(*pktUnsubAck).Parse", 0, 0)))
+
+// ---- connection state, Err(), Done() (C16), reader goroutine exit (C06, C11) ----
+
+// the Done() channel is closed by the reader goroutine and by nobody else
+//@ closer BaseClient.connClosed (*BaseClient).Connect$1
+
+//@ func (*BaseClient).storePingError
+//@   mode bv
+//@   props C13
+//@   requires c != nil
+//@   assigns c.stats
+//@   note statistics counters wrap around like any Go int (bit-vector semantics)
+
+//@ func (*BaseClient).storePingDelay
+//@   mode bv
+//@   props C13
+//@   requires c != nil
+//@   assigns c.stats
+
+//@ func (*BaseClient).SetErrorOnce
+//@   mode int
+//@   props C16
+//@   requires c != nil
+//@   assigns c.err
+//@   ensures[C16] once: c.err == ite(guardVal(&c.err) != nil, guardVal(&c.err), err)
+
+//@ func (*BaseClient).Err
+//@   mode int
+//@   props C16
+//@   requires c != nil
+//@   assigns c.err
+//@   ensures[C16] result == guardVal(&c.err) && c.err == guardVal(&c.err)
+
+//@ func (*BaseClient).Close
+//@   mode int
+//@   props C16
+//@   inline
+//@   requires c != nil && c.Transport != nil
+
+//@ func (*BaseClient).connStateUpdate
+//@   mode int
+//@   props C16
+//@   requires c != nil
+//@   assigns c.connState; c.err
+//@   ensures[C16] absorbing: guardVal(&c.connState) == StateDisconnected ==> c.connState == StateDisconnected && evCount("callback:func(ConnState, error)") == 0
+//@   ensures[C16] set: guardVal(&c.connState) != StateDisconnected ==> c.connState == newState
+//@   ensures[C16] callback: evCount("callback:func(ConnState, error)") == ite(c.ConnState != nil && guardVal(&c.connState) != c.connState, 1, 0)
+//@   ensures[C16] callback_args: evCount("callback:func(ConnState, error)") == 1 ==> evArg[ConnState]("callback:func(ConnState, error)", 0, 0) == c.connState &&
+//@        evArg[error]("callback:func(ConnState, error)", 0, 1) == evRet[error]("(*BaseClient).Err", 0, 0)
+
+//@ func (*BaseClient).Connect$1
+//@   mode int
+//@   props C06 C11 C16
+//@   requires c != nil && c.sig != nil && c.Transport != nil && c.connClosed != nil && !closed(c.connClosed)
+//@   assigns c.connState; c.err
+//@   ensures[C06,C11,C16] sequence: evCount("(*BaseClient).serve") == 1 && evCount("Transport.Close") == 1 && evCount("(*BaseClient).connStateUpdate") == 1 &&
+//@        evArg[ConnState]("(*BaseClient).connStateUpdate", 0, 1) == StateClosed && evCount("close") == 1 && evArg[chan struct{}]("close", 0, 0) == c.connClosed &&
+//@        evIndex("(*BaseClient).serve", 0) < evIndex("Transport.Close", 0) && evIndex("Transport.Close", 0) < evIndex("(*BaseClient).connStateUpdate", 0) &&
+//@        evIndex("(*BaseClient).connStateUpdate", 0) < evIndex("close", 0)
+//@   ensures[C06,C16] err_stored: evCount("(*BaseClient).SetErrorOnce") == ite(guardVal(&c.connState) != StateDisconnected, 1, 0) &&
+//@        (evCount("(*BaseClient).SetErrorOnce") == 1 ==> evArg[error]("(*BaseClient).SetErrorOnce", 0, 1) != nil &&
+//@             evIndex("Transport.Close", 0) < evIndex("(*BaseClient).SetErrorOnce", 0) && evIndex("(*BaseClient).SetErrorOnce", 0) < evIndex("(*BaseClient).connStateUpdate", 0))
+//@   ensures[C11,C16] done_closed: closed(c.connClosed)
+
+//@ func (*BaseClient).Disconnect
+//@   mode int
+//@   props C11 C16
+//@   requires c != nil && ctx != nil && c.Transport != nil
+//@   assigns c.connState; c.err
+//@   ensures[C16] order: evCount("(*BaseClient).connStateUpdate") == 1 && evArg[ConnState]("(*BaseClient).connStateUpdate", 0, 1) == StateDisconnected &&
+//@        evCount("(*BaseClient).write") == 1 && evIndex("(*BaseClient).connStateUpdate", 0) < evIndex("(*BaseClient).write", 0)
+//@   ensures[C05] wire: seqEq(evBytes("(*BaseClient).write", 0, 1), cat(b1(0xE0), b1(0)))
+//@   ensures[C11] nonblocking: evCount("select") == 0 && evCount("recv") == 0 && evCount("send") == 0
+//@   ensures[C16] closes: result == nil ==> evCount("Transport.Close") == 1
+
+//@ func (*BaseClient).Done
+//@   mode int
+//@   props C16
+//@   requires c != nil
+//@   assigns nothing
+//@   ensures[C16] result == c.connClosed
+
+//@ func (*BaseClient).Ping
+//@   mode int
+//@   props C07 C11 C13
+//@   requires c != nil && ctx != nil && c.Transport != nil
+//@   assigns c.stats
+//@   let sig0 *signaller = c.sig
+//@   ensures[C05,C13] wire: evCount("(*BaseClient).write") <= 1 && (evCount("(*BaseClient).write") == 1 ==> seqEq(evBytes("(*BaseClient).write", 0, 1), cat(b1(0xC0), b1(0))))
+//@   ensures[C07,C11,C13] nil_only_resp: result == nil ==> evCount("select") == 1 && evRet[int]("select", 0, 0) == 2 && fresh(evArg[chan *pktPingResp]("select", 0, 2)) &&
+//@        evIndex("(*BaseClient).write", 0) < evIndex("select", 0)
+//@   ensures[C11] waitset: evCount("select") == 1 ==> evArg[chan struct{}]("select", 0, 0) == c.connClosed &&
+//@        evArg[<-chan struct{}]("select", 0, 1) == evRet[<-chan struct{}]("context.Context.Done", 0, 0) && evArg[context.Context]("context.Context.Done", 0, 0) == ctx
+//@   ensures[C11] no_bare_block: evCount("recv") == 0 && evCount("send") == 0
+//@   ensures[C11,C19] cancel_cause: evCount("select") == 1 && evRet[int]("select", 0, 0) == 1 && asError(result) != nil ==>
+//@        evArg[context.Context]("context.Context.Err", 0, 0) == ctx && asError(result).Err == evRet[error]("context.Context.Err", 0, 0)
+//@   ensures[C11,C19] closed_cause: evCount("select") == 1 && evRet[int]("select", 0, 0) == 0 ==> asError(result) != nil && asError(result).Err == ErrClosedTransport
+//@   ensures[C19] not_connected: sig0 == nil ==> result == ErrNotConnected && evCount("(*BaseClient).write") == 0
